@@ -15,4 +15,5 @@ for d in sorted(glob.glob("/verif/seeded/*/")):
     for c in m["checks_run"]:
         res = c["result"]
         first.append("%s %s: %s" % (c["check"], c["tier"], "caught" if res.startswith("VIOLATION") else res))
-    print("| `%s` | %s | %s | %s |" % (m["id"], m["needs_to_manifest"].replace("|", "/"), "; ".join(first).replace("|", "/"), last.get(m["id"], "?")))
+    now = "superseded" if m.get("superseded") else last.get(m["id"], "?")
+    print("| `%s` | %s | %s | %s |" % (m["id"], m["needs_to_manifest"].replace("|", "/"), "; ".join(first).replace("|", "/"), now))
